@@ -934,7 +934,15 @@ class Executor:
         if k == "ref":
             return self.make_ref(st, fid, rv.a[0])
         if k == "binop":
-            return self.binop(rv.a[0], self.operand(st, fid, rv.a[1], fn), self.operand(st, fid, rv.a[2], fn))
+            a, b = self.operand(st, fid, rv.a[1], fn), self.operand(st, fid, rv.a[2], fn)
+            # the arithmetic type is the DECLARED type of the destination local ((T, bool) for checked ops), not the tag
+            # carried by the operand value (which an obligation may have built with a stale type)
+            if dest_ty and isinstance(a, VInt) and rv.a[0] not in ("Eq", "Ne", "Lt", "Le", "Gt", "Ge"):
+                m = re.fullmatch(r"\((\w+), bool\)", dest_ty)
+                dt = m.group(1) if m else dest_ty
+                if int_info(dt) and dt != a.ty:
+                    a = VInt(a.t, dt)
+            return self.binop(rv.a[0], a, b)
         if k == "unop":
             v = self.operand(st, fid, rv.a[1], fn)
             op = rv.a[0]
